@@ -9,7 +9,7 @@ PID = "C16"
 RULE = (
     "cases = Hypothesis-generated IR modules (vf/genir.py, full menu: every instruction kind and operator, undef, literals, "
     "memcpy, volatile accesses, boundary/huge constants, non-finite floats, initialised globals incl. symbol references, "
-    "blocks emitted in non-dominance order) and C front-end modules (c_to_ir on translation units assembled from 23 "
+    "blocks emitted in non-dominance order) and C front-end modules (c_to_ir on translation units assembled from 25 "
     "fragments, optionally optimised at level 2). Oracle: from_json(to_json(m)) succeeds and the result is structurally "
     "equal to m under vf/irround.dump_module: module name; externals (kind, name, types); variables (name, binding, amount, "
     "alignment, value parts); functions (kind, name, binding, return type, parameters, entry); blocks in order; instructions "
